@@ -338,6 +338,87 @@ func genDenseAlpha(r *RNG, a, d int, dropPermille int) []string {
 	return sortUniq(out)
 }
 
+// genLongTail: keys that differ early and carry long tails behind the last
+// branch point (tails are what a leaf prefix stores): lengths around 32 and 64,
+// ASCII, random bytes, valid multi-byte UTF-8 and stray high bytes.
+func genLongTail(r *RNG) []string {
+	n := r.Range(2, 120)
+	utf := []string{"é", "ü", "日本語", "Ω", "😀", "caf\xc3\xa9", "\xc3\x28", "\xe2\x82", "\xff\xfe"}
+	var out []string
+	for i := 0; i < n; i++ {
+		head := string(r.Bytes(r.Range(1, 3)))
+		tl := []int{0, 1, 2, 7, 8, 9, 31, 32, 33, 34, 40, 63, 64, 65, 100, 200, 300}[r.Intn(17)]
+		var tail []byte
+		switch r.Intn(4) {
+		case 0:
+			tail = r.Bytes(tl)
+		case 1:
+			for len(tail) < tl {
+				tail = append(tail, byte('a'+r.Intn(26)))
+			}
+		case 2:
+			for len(tail) < tl {
+				tail = append(tail, utf[r.Intn(len(utf))]...)
+			}
+		default:
+			for len(tail) < tl {
+				tail = append(tail, byte('a'+r.Intn(26)))
+			}
+			if tl > 0 {
+				tail[r.Intn(len(tail))] = byte(0x80 + r.Intn(0x80))
+			}
+		}
+		out = append(out, head+string(tail))
+		if r.Chance(1, 5) {
+			// a sibling sharing the whole tail except the last byte
+			t2 := append([]byte{}, tail...)
+			if len(t2) > 0 {
+				t2[len(t2)-1] ^= 0x01
+				out = append(out, head+string(t2))
+			}
+		}
+	}
+	return sortUniq(out)
+}
+
+// genDecimal: zero-padded decimal numbers (optionally behind a textual
+// prefix): every node sees the same 8-10 low-nibble labels, the most common
+// key shape in practice.
+func genDecimal(r *RNG, maxN int) []string {
+	w := r.Range(2, 8)
+	n := r.Range(10, maxN)
+	lim := 1
+	for i := 0; i < w; i++ {
+		lim *= 10
+	}
+	step := r.Range(1, 7)
+	if n*step > lim {
+		n = lim / step
+	}
+	pre := []string{"", "", "user-", "k", "2024-"}[r.Intn(5)]
+	base := r.Intn(10)
+	out := make([]string, 0, n)
+	for i := 0; i < n; i++ {
+		s := []byte(pre)
+		x := i * step
+		d := make([]byte, w)
+		for j := w - 1; j >= 0; j-- {
+			d[j] = byte('0' + x%10)
+			x /= 10
+		}
+		if base < 3 {
+			// digits 0-7 or 0-8 only: 8 or 9 labels
+			for j := range d {
+				if int(d[j]-'0') > 6+base {
+					d[j] = byte('0' + 6 + base)
+				}
+			}
+		}
+		out = append(out, string(append(s, d...)))
+	}
+	return sortUniq(out)
+}
+
 // genKeySet picks a family by PRNG. scale: 0 quick, 1 thorough, 2 = race pass
 // (small).
 func genKeySet(r *RNG, scale int) KeySet {
@@ -385,6 +466,12 @@ func genKeySet(r *RNG, scale int) KeySet {
 			maxLen = 16384
 		}
 		ks = KeySet{"long", genLong(r, maxLen)}
+	case f < 19:
+		if r.Bool() {
+			ks = KeySet{"long-tail", genLongTail(r)}
+		} else {
+			ks = KeySet{"decimal", genDecimal(r, maxUniform)}
+		}
 	default:
 		ks = KeySet{"small-alpha", genSmallAlpha(r)}
 	}
